@@ -144,18 +144,20 @@ fn data_text<const N: usize>() -> ([u8; N], usize) {
 
 /// C18: the scanner accepts exactly the shape, and the borrowed form (re-scans) and the owned form (stored offsets)
 /// report the same media type / base64 flag / data, which reassemble the text.
-/// Bound: 'data:' + up to 7 ASCII bytes (no ';base64,' fits: covers the plain branch and every rejection).
-#[kani::proof]
-#[kani::unwind(14)]
-fn dataurl_views_plain_12() {
-    let (b, n) = data_text::<12>();
+fn dataurl_views<const N: usize>(semicolon_branch: bool) {
+    let (b, n) = data_text::<N>();
     let s = &b[..n];
+    if semicolon_branch {
+        // steer to the ';' branch: a ';' within the first three bytes after 'data:'
+        kani::assume(n >= 6 && (b[5] == b';' || (n >= 7 && is_mt(b[5]) && (b[6] == b';' || (n >= 8 && is_mt(b[6]) && b[7] == b';')))));
+    }
     let st = unsafe { std::str::from_utf8_unchecked(s) };
     let parts = uri::data::DataUrlPartsRef::parse(st);
     let sh = data_shape(s);
     assert!(parts.is_some() == sh.is_some());
     if let (Some(p), Some((mte, b64, ds))) = (parts, sh) {
         assert!(p.base_64 == b64);
+        if semicolon_branch { assert!(b64); }
         assert!(p.data.as_bytes() == &s[ds..]);
         assert!(p.media_type.map(|m| m.as_bytes()) == if mte > 5 { Some(&s[5..mte]) } else { None });
         // borrowed form: accessors re-scan the text
@@ -169,30 +171,25 @@ fn dataurl_views_plain_12() {
     }
 }
 
-/// same with the ';base64,' marker: 'data:' + media type of up to 2 bytes + ';' + the remaining (up to 9) free bytes
+/// Bound: 'data:' + up to 5 ASCII bytes (plain branch and every rejection) - quick tier
+#[kani::proof]
+#[kani::unwind(12)]
+fn dataurl_views_plain_10() { dataurl_views::<10>(false) }
+
+/// Bound: 'data:' + up to 7 ASCII bytes - thorough tier
+#[kani::proof]
+#[kani::unwind(14)]
+fn dataurl_views_plain_12() { dataurl_views::<12>(false) }
+
+/// ';base64,' branch: 'data:' + up to 9 bytes with a ';' among the first three - quick tier
+#[kani::proof]
+#[kani::unwind(16)]
+fn dataurl_views_base64_14() { dataurl_views::<14>(true) }
+
+/// ';base64,' branch: 'data:' + up to 10 bytes - thorough tier
 #[kani::proof]
 #[kani::unwind(17)]
-fn dataurl_views_base64_15() {
-    let (b, n) = data_text::<15>();
-    let s = &b[..n];
-    // steer to the ';' branch: a ';' within the first three bytes after 'data:'
-    kani::assume(n >= 6 && (b[5] == b';' || (n >= 7 && is_mt(b[5]) && (b[6] == b';' || (n >= 8 && is_mt(b[6]) && b[7] == b';')))));
-    let st = unsafe { std::str::from_utf8_unchecked(s) };
-    let parts = uri::data::DataUrlPartsRef::parse(st);
-    let sh = data_shape(s);
-    assert!(parts.is_some() == sh.is_some());
-    if let (Some(p), Some((mte, b64, ds))) = (parts, sh) {
-        assert!(b64 && p.base_64);
-        assert!(p.data.as_bytes() == &s[ds..]);
-        assert!(p.media_type.map(|m| m.as_bytes()) == if mte > 5 { Some(&s[5..mte]) } else { None });
-        let d = unsafe { uri::data::DataUrl::new_unchecked(s) };
-        assert!(d.media_type() == p.media_type);
-        assert!(d.is_base_64_encoded() == p.base_64);
-        assert!(d.encoded_data() == p.data);
-        let ml = p.media_type.map_or(0, |m| m.len());
-        assert!(5 + ml + 7 + 1 + p.data.len() == s.len());
-    }
-}
+fn dataurl_views_base64_15() { dataurl_views::<15>(true) }
 
 // C08 (Eq / Ord / Hash coherence): harnesses through Hash / PctStr (percent-decoding + utf8-decode loops)
 // did not finish within 10 minutes even for 2-byte inputs (measured twice); the property is listed
